@@ -309,6 +309,7 @@ type cgen struct {
 	opts  []*gopt
 	lines []string
 	ncl   int
+	nvf   int // config.ValidityFlag objects created so far
 	npers int
 	nset  int
 	nget  int
@@ -459,13 +460,27 @@ func (g *cgen) step() {
 		g.ncl++
 		cnt("mk")
 		g.add(fmt.Sprintf("mk %d %s %s %s", g.ncl, pick(rng, []string{"p", "c"}), k, fbTok(rng, ty)))
-	case x < 84:
+	case x < 81:
 		if g.ncl == 0 {
 			return
 		}
 		cnt("call")
 		g.nget++
 		g.add(fmt.Sprintf("call %d", 1+rng.Intn(g.ncl)))
+	case x < 84:
+		// config.ValidityFlag objects: created (invalid), refreshed, asked
+		switch y := rng.Intn(10); {
+		case g.nvf == 0 || y == 0:
+			g.nvf++
+			cnt("vfnew")
+			g.add(fmt.Sprintf("vfnew %d", g.nvf))
+		case y < 4:
+			cnt("vfrefresh")
+			g.add(fmt.Sprintf("vfrefresh %d", 1+rng.Intn(g.nvf)))
+		default:
+			cnt("vfvalid")
+			g.add(fmt.Sprintf("vfvalid %d", 1+rng.Intn(g.nvf)))
+		}
 	case x < 88:
 		k, _ := g.anyKey()
 		cnt("uv")
@@ -555,6 +570,9 @@ func (g *cgen) sweep() {
 	}
 	for i := 1; i <= g.ncl; i++ {
 		g.add(fmt.Sprintf("call %d", i))
+	}
+	for i := 1; i <= g.nvf; i++ {
+		g.add(fmt.Sprintf("vfvalid %d", i))
 	}
 	g.add("active")
 	g.add("rlgate")
